@@ -207,6 +207,38 @@ func init() {
 				`{"type":"object","details":{"type":"uint256"}}`, `{"type":"string","details":{"type":"tuple"}}`, `{"type":"string","details":{"type":"uint256","index":"x"}}`, `{"type":"string","details":null}`} {
 				addFfiToABI(c, "p", s, "schema.corner")
 			}
+			// wide and deep schemas: objects with many members (each costs the model one unit of fuel), arrays of arrays,
+			// objects nested in objects — the shapes a fixed amount of model fuel would not cover
+			for _, w := range []int{30, 63, 64, 65, 100, 300} {
+				var sb strings.Builder
+				sb.WriteString(`{"type":"object","details":{"type":"tuple"},"properties":{`)
+				for k := 0; k < w; k++ {
+					if k > 0 {
+						sb.WriteString(",")
+					}
+					idx := k
+					if w == 100 && k == 99 {
+						idx = 98 // one collision at the very end of a wide object
+					}
+					fmt.Fprintf(&sb, `"m%d":{"type":"string","details":{"type":"string","index":%d}}`, k, idx)
+				}
+				sb.WriteString("}}")
+				addFfiToABI(c, "wide", sb.String(), "schema.wide")
+			}
+			for _, d := range []int{5, 20, 30, 63, 64, 65, 70} {
+				inner := `{"type":"string","details":{"type":"string","index":0}}`
+				obj := inner
+				for k := 0; k < d; k++ {
+					obj = `{"type":"object","details":{"type":"tuple","index":0},"properties":{"x":` + obj + `}}`
+				}
+				addFfiToABI(c, "deep", obj, "schema.deep")
+				arr := `{"type":"object","properties":{"a":` + inner + `}}`
+				for k := 0; k < d; k++ {
+					arr = `{"type":"array","items":` + arr + `}`
+				}
+				arr = `{"type":"array","details":{"type":"tuple` + strings.Repeat("[]", d+1) + `"},"items":` + arr + `}`
+				addFfiToABI(c, "deeparr", arr, "schema.deeparr")
+			}
 		},
 		Impl: func(req map[string]any) any {
 			ctx := context.Background()
